@@ -13,8 +13,9 @@ RECURSIVE LProd(_)
 LProd(d) == IF d = <<>> THEN 1 ELSE Head(d) * LProd(Tail(d))
 MCSeeds(d) == {TT(d, [k \in 1..LProd(d) |-> 5 + 2 * k])}
 
+IdAdj(n, t) == t
 INSTANCE AutodiffImpl WITH SAdd <- IAdd, SMul <- IMul, SNeg <- INeg, SDiv <- IDiv, SFn <- IFn,
-                           SPow <- IPow, SDPow <- IDPow, SZero <- 0, SOne <- 1,
+                           SPow <- IPow, SDPow <- IDPow, SZero <- 0, SOne <- 1, AdjCanon <- IdAdj,
                            LeafTs <- MCLeafTs, Seeds <- MCSeeds
 \* the next-state relation restated at the root so that TLC reports one coverage count per action
 MCNext == Build \/ Freeze \/ Begin \/ Eval \/ Deliver \/ Store \/ Clear
